@@ -89,7 +89,13 @@ class LockStep(Model):
             self.apply(ev)
 
     def canon(self):
-        return (self.ref.canon(), self.disjoint_live)
+        # equal content with an allocator pointing into the occupied id range has another future: keep such states apart
+        st = world.shared_store()
+        healthy = [st.start_id > max(st.graphs.nodes, default=0)]
+        if self.disjoint_live:
+            ds = world.disjoint_store()
+            healthy += [dict.get(ds.graph_node_ids, k, 1) > max(g.nodes, default=0) for k, g in sorted(ds.graphs.items())]
+        return (self.ref.canon(), self.disjoint_live, all(healthy))
 
     # ------------------------------------------------------------ alphabet
     def events(self):
